@@ -16,6 +16,7 @@ package main
 // The block history is written to <trace>.blocks (genesis + every block with its transactions): it is the replay.
 
 import (
+	"github.com/cosmos/cosmos-sdk/telemetry"
 	"bufio"
 	"crypto/sha256"
 	"encoding/hex"
@@ -392,6 +393,10 @@ func runReplica(seed uint64, ops int, out string) map[string]int {
 
 // runReplicaChild: replica D. `out` is the history file; results go to <out>.d, one line per height.
 func runReplicaChild(seed uint64, ops int, out string) map[string]int {
+	// node-local configuration differs between replicas too: this one runs with `[telemetry] enabled = true` (in-memory sink)
+	if _, err := telemetry.New(telemetry.Config{Enabled: true, ServiceName: "replica-d"}); err != nil {
+		panic(err)
+	}
 	f, err := os.Open(out)
 	if err != nil {
 		panic(err)
